@@ -1,3 +1,4 @@
+import itertools
 """C08 - fix mode preserves meaning: only style changes (fingerprint through an independent renderer)."""
 import html.parser
 import os
@@ -294,7 +295,15 @@ def run(ctx):
     base = list(gen.POOL) + list(gen.d_trig_small()) + list(gen.d_line(gen.V_ALL, 2, final_newline=(True,)))
     base += ["> # x\n", ">     # x\n", "#  þing\n", "a\n\n\n\n<!-- pyml disable-next-line md009-->\nb \n<!-- pyml disable-next-line md010-->\nc\n",
              "a\n```\nx\n```\n<!-- pyml disable-next-line md009-->\n<!-- pyml disable-next-line md010-->\nc\n", "a\n\n\n\n<!--- pyml disable-next-line md010-->\nb \nc\n"]
-    base = list(gen.uniq(base))
+    # nested lists whose items sit at every small indentation, with and without a continuation paragraph: the documents on which
+    # the list rules (MD005, MD006, MD007) move text; run under the rules alone in both tiers
+    nested = []
+    for outer, lo in (("- a", 2), ("1. a", 3)):
+        for i1, i2, c1, c2 in itertools.product(range(lo, lo + 4), range(lo, lo + 4), (False, True), (False, True)):
+            ls = [outer, " " * i1 + "- b"] + (["", " " * (i1 + 2) + "b2"] if c1 else []) + [" " * i2 + "- c"] + (["", " " * (i2 + 2) + "c2"] if c2 else [])
+            nested.append("\n".join(ls) + "\n")
+    nested = [d for d in gen.uniq(nested)]
+    base = list(gen.uniq(base + nested))
     extra = gen.sample(list(gen.d_line(pr_lines, 5, final_newline=(True,))), 4000, 31)[:4000 if ctx.tier == "thorough" else 700]
     extra += gen.sample(list(gen.d_line(gen.V_ALL, 3, final_newline=(True,))), 12000, 33)[:12000 if ctx.tier == "thorough" else 1500]
     corpus = gen.repo_corpus(core.REPO)
@@ -305,6 +314,8 @@ def run(ctx):
     if ctx.tier == "quick":
         rnd = random.Random(ctx.seed)
         space = [(d, configs[0]) for d in docs] + [(d, rnd.choice(configs[1:])) for d in rnd.sample(base, min(len(base), 1500))]
+        space += [(d, c) for d in nested for c in configs[1:] if c[0] in ("only:md005", "only:md006", "only:md007")]
+        space = list({(d, c[0]): (d, c) for d, c in space}.values())
     else:
         space = [(d, configs[0]) for d in docs] + [(d, c) for d in base for c in configs[1:]]
     res = impl.pmap(_fix, [(d, c[1], c[2]) for d, c in space], chunksize=16)
@@ -327,7 +338,7 @@ def run(ctx):
     ]
     return ctx.finish(
         level="proof",
-        rule="(A) random replacement cases drawn from one seed; (B) documents (pool, trigger documents, 2-3-line documents over the general vocabulary, 5-line documents with pragma lines, repository corpus) under the default rule set and under each fix-capable rule alone; quick = seed-selected subset; non-trivial = a run in which fix changed the file; distinct by (document, configuration)",
+        rule="(A) random replacement cases drawn from one seed; (B) documents (pool, trigger documents, 2-3-line documents over the general vocabulary, 128 nested lists at every small indentation with/without continuation paragraphs, 5-line documents with pragma lines, repository corpus) under the default rule set and under each fix-capable rule alone; quick = seed-selected subset; non-trivial = a run in which fix changed the file; distinct by (document, configuration)",
         assumptions=["a fix run that ends in an application error is C09's and C15's business", "documents are compared through markdown-it-py only"],
         extra_cov={"exhaustive": False},
     )
